@@ -25,6 +25,12 @@ MORGUE = ("static class Morgue { public static Probe last; }\n"
           "class Probe { public qubit q; public int alive; public constructor() -> Probe { this.alive = 1; } public destructor() -> void { Morgue.last = this; } }\n"
           "class Fresh { public qubit q; public constructor() -> Fresh { } }\n"
           "function useAndDrop() -> void { Probe p = new Probe(); h(p.q); }\n")
+# (fields are named bare: inside a method a bare name is a field of the enclosing class; how 'this.q' or 'obj.q' choose between a
+#  base field and a same-named derived field is not documented, so those spellings are not used here)
+SHADOW = ("class Base { public qubit q; public qubit[2] r; public constructor() -> Base = default; public function flipBase() -> void { x(q); x(r[1]); }\n"
+          "  public function readBase() -> bit { bit r0 = measure q; bit r1 = measure r[1]; if (r0 == 1b && r1 == 1b) { return 1b; } return 0b; } }\n"
+          "class Der extends Base { public qubit q; public qubit[2] r; public constructor() -> Der { super(); } public function flipDer() -> void { x(q); x(r[1]); }\n"
+          "  public function readDer() -> bit { bit r0 = measure q; bit r1 = measure r[1]; if (r0 == 1b || r1 == 1b) { return 1b; } return 0b; } }\n")
 HANDLE_PROBES = [
     ("init_local", "function main() -> void { qubit a; qubit b = a; x(a); bit r = measure b; echo(r); bit s = measure a; }\n", "0"),
     ("init_elem", "function main() -> void { qubit[2] reg; qubit d = reg[1]; x(reg[1]); bit r = measure d; echo(r); measure reg; }\n", "0"),
@@ -67,6 +73,24 @@ HANDLE_PROBES = [
     ("dead_owner_array", MORGUE.replace("public qubit q;", "public qubit[2] q;", 1).replace("h(p.q);", "h(p.q[1]);") +
                          "function main() -> void { useAndDrop(); qubit[2] f; Probe dead = Morgue.last; if (dead.alive == 1) { x(dead.q[0]); x(dead.q[1]); } "
                          "bit r = measure f[0]; bit s = measure f[1]; echo(r); }\n", "0"),
+    # a derived class redeclaring an inherited qubit field: two declarations in one object
+    ("shadowed_field", SHADOW + "function main() -> void { Der d = new Der(); d.flipBase(); bit r = d.readDer(); echo(r); bit s = d.readBase(); }\n", "0"),
+    ("shadowed_field_reverse", SHADOW + "function main() -> void { Der d = new Der(); d.flipDer(); bit r = d.readBase(); echo(r); bit s = d.readDer(); }\n", "0"),
+    ("shadowed_field_register_size", SHADOW + "function main() -> void { qubit pad; Der d = new Der(); qubit after; x(after); d.flipBase(); d.flipDer(); bit r = measure pad; echo(r); "
+                                     "bit s = measure after; bit t = d.readBase(); bit u = d.readDer(); }\n", "0"),
+    ("shadowed_field_control", SHADOW + "function main() -> void { Der d = new Der(); d.flipBase(); bit s = d.readBase(); echo(s); bit r = d.readDer(); }\n", "1"),
+    # the same local declaration executed again while an earlier activation's qubit is still in use (recursion, re-entrant
+    # methods): every activation has its own qubit and keeps its state
+    ("recursive_local", "function rec(int n) -> int { qubit q; x(q); int inner = 0; if (n > 0) { inner = rec(n - 1); } bit r = measure q; if (r == 1b) { return inner + 1; } return inner; }\n"
+                        "function main() -> void { echo(rec(3)); }\n", "4"),
+    ("recursive_local_array", "function rec(int n) -> int { qubit[2] q; x(q[1]); int inner = 0; if (n > 0) { inner = rec(n - 1); } bit r = measure q[1]; bit z = measure q[0]; "
+                              "if (r == 1b && z == 0b) { return inner + 1; } return inner; }\nfunction main() -> void { echo(rec(2)); }\n", "3"),
+    ("mutual_recursion_local", "function ping(int n) -> int { qubit q; x(q); int inner = 0; if (n > 0) { inner = pong(n - 1); } bit r = measure q; if (r == 1b) { return inner + 1; } return inner; }\n"
+                               "function pong(int n) -> int { qubit q; int inner = 0; if (n > 0) { inner = ping(n - 1); } bit r = measure q; if (r == 0b) { return inner + 10; } return inner; }\n"
+                               "function main() -> void { echo(ping(3)); }\n", "22"),
+    ("reentrant_method_local", "class W { public W other; public constructor() -> W = default; public function go(int n) -> int { qubit q; x(q); int inner = 0; "
+                               "if (n > 0 && other != null) { inner = other.go(n - 1); } bit r = measure q; if (r == 1b) { return inner + 1; } return inner; } }\n"
+                               "function main() -> void { W a = new W(); W b = new W(); a.other = b; b.other = a; echo(a.go(3)); }\n", "4"),
     # controls: ONE declaration reached by two names must be shared
     ("param_is_same_qubit", "function f(qubit p) -> void { x(p); }\nfunction main() -> void { qubit a; f(a); bit r = measure a; echo(r); }\n", "1"),
     ("field_via_two_refs", QCLS + "function main() -> void { Q o = new Q(); Q o2 = o; x(o.q); bit r = measure o2.q; echo(r); }\n", "1"),
